@@ -347,6 +347,26 @@ class Session:
             if not ok:
                 return r, False
             return 'ok S%s %s %s' % (hx(''.join(self.out)), same, forms), True
+        if name == 'wawkx':
+            # one WAWK expression: the grammar's expr rule and the TreeToWal transformer
+            text = cmd[1]
+            self.model_cmds.append('wawkx S%s' % hx(text))
+            from lark import Lark
+            from lark.exceptions import LarkError
+            from wawk.parser import WAWK_GRAMMAR, TreeToWal
+            global _WAWK_EXPR
+            try:
+                _WAWK_EXPR
+            except NameError:
+                _WAWK_EXPR = Lark(WAWK_GRAMMAR, start='expr')
+            try:
+                with contextlib.redirect_stdout(io.StringIO()):
+                    r = TreeToWal().transform(_WAWK_EXPR.parse(text))
+            except LarkError:
+                return 'err P', True
+            except BaseException as e:      # noqa: B902
+                return 'ok OTHER-EXCEPTION-%s' % type(e).__name__, True
+            return 'ok ' + ser(r), True
         if name == 'idem':
             # passes applied once vs twice to every form, both versions evaluated on copies of this interpreter
             import copy
